@@ -68,7 +68,19 @@ pub fn format_comments(comments: &ChildTrivia, loc: CommentLocation, out: &mut P
 				while lines.last().is_some_and(String::is_empty) {
 					lines.pop();
 				}
-				if lines.len() == 1 && !doc {
+				if lines.is_empty() {
+					// Empty comment (`/**/`, `/***/`): nothing to reflow, but it is still a comment
+					if matches!(loc, CommentLocation::ItemInline) {
+						p!(out, str(" "));
+					}
+					p!(out, str(if doc { "/***/" } else { "/**/" }));
+					if matches!(
+						loc,
+						CommentLocation::AboveItem | CommentLocation::EndOfItems
+					) {
+						p!(out, nl);
+					}
+				} else if lines.len() == 1 && !doc {
 					if matches!(loc, CommentLocation::ItemInline) {
 						p!(out, str(" "));
 					}
